@@ -404,6 +404,14 @@ func (x *Exec) doAlloc(st *State, fr *Frame, in *ssa.Alloc) Val {
 		x.setArr(st, name, srt, app("store", arr, r, x.reg.zero(T)))
 		return &Place{Kind: pkElem, Ref: r, Base: u.Elem(), T: T, ArrayPtr: true, ArrLen: u.Len()}
 	}
+	if in.Heap && escapesAsValue(in) {
+		// address is passed around as a value: a real heap object
+		r := x.allocRefT(st, in.Type())
+		name, srt := x.heapName(T)
+		arr := x.getArr(st, name, srt)
+		x.setArr(st, name, srt, app("store", arr, r, x.reg.zero(T)))
+		return &Place{Kind: pkHeap, Ref: r, Base: T, T: T}
+	}
 	c := x.newCell(in.Comment, T)
 	fr.allocCell[in] = c
 	if _, isSig := T.Underlying().(*types.Signature); isSig {
@@ -464,7 +472,7 @@ func (x *Exec) sliceOp(st *State, fr *Frame, in *ssa.Slice) Val {
 			capT = mx
 		}
 		x.safety(st, fr, "slice-bounds", in, 0, and(app("<=", "0", lo), app("<=", lo, hi), app("<=", hi, capT)), "slice bounds 0 <= low <= high <= cap")
-		return Term{x.define(st, "sl", "Slice", app("mk_Slice", app("s_arr", s), app("+", app("s_off", s), lo), app("-", hi, lo), app("-", capT, lo))), in.Type()}
+		return Term{x.define(st, "sl", "Slice", app("mk_Slice", app("s_arr", s), addT(app("s_off", s), lo), subT(hi, lo), subT(capT, lo))), in.Type()}
 	case *types.Pointer:
 		at := u.Elem().Underlying().(*types.Array)
 		p := x.asPlace(xv, in.X.Type())
@@ -953,3 +961,25 @@ func (x *Exec) next(st *State, fr *Frame, in *ssa.Next) Val {
 
 var _ = constant.MakeBool
 var _ = strings.Contains
+
+// escapesAsValue: is the address of this allocation used other than for loads, stores through it,
+// field/element addressing and closure capture?
+func escapesAsValue(a *ssa.Alloc) bool {
+	if a.Referrers() == nil {
+		return false
+	}
+	for _, r := range *a.Referrers() {
+		switch u := r.(type) {
+		case *ssa.Store:
+			if u.Val == ssa.Value(a) {
+				return true
+			}
+		case *ssa.UnOp, *ssa.MakeClosure, *ssa.DebugRef:
+		case *ssa.FieldAddr:
+		case *ssa.IndexAddr:
+		default:
+			return true
+		}
+	}
+	return false
+}
